@@ -553,7 +553,7 @@ impl Check for C16 {
         // back conversion with several thread counts; all must give the original records
         let back_tool = if c.bed { if c.ucsc { "bigBedToBed" } else { "bigbedtobed" } } else if c.ucsc { "bigWigToBedGraph" } else { "bigwigtobedgraph" };
         let mut first_text: Option<String> = None;
-        for (bt, inmem) in [(1usize, false), (2, true), (6, false), (16, true)] {
+        for (bt, inmem) in [(1usize, false), (2, true), (6, false), (16, true), (0, false)] {
             let mut a: Vec<String> = if c.multicall { vec![s("bigtools"), s(back_tool)] } else { vec![s(back_tool)] };
             a.extend([s("out.bb"), format!("back{}.txt", bt), s("-t"), bt.to_string()]);
             if inmem {
@@ -1521,6 +1521,16 @@ pub fn refuse_tool_cases(quick: bool) -> Vec<RefuseTool> {
             }
         }
     }
+    // a thread count of 0 (valid input: must convert; malformed input: must be refused, not panic)
+    for bed in [false, true] {
+        for what in ["valid", "missing_end", "unknown_chrom"] {
+            for single_pass in [false, true] {
+                v.push(RefuseTool { bed, what: s(what), threads: 0, parallel: s("auto"), single_pass, stdin: false });
+            }
+        }
+    }
+    v.push(RefuseTool { bed: false, what: s("merge_valid"), threads: 0, parallel: s("no"), single_pass: false, stdin: false });
+    v.push(RefuseTool { bed: false, what: s("merge_valid"), threads: 0, parallel: s("no"), single_pass: true, stdin: false });
     // the same malformed first lines (and a valid input) arriving on standard input
     for bed in [false, true] {
         for what in ["missing_end_first", "non_numeric_start_first", "space_separated_first", "blank_first", "missing_end", "valid"] {
